@@ -22,6 +22,7 @@ RULE = ("cases = (left frame, right frame, key spec, join kind) enumerated exhau
         "non-trivial = both sides non-empty and some key is duplicated or missing on either side")
 ASSUMPTIONS = [
     "key values outside the alphabets and frames longer than the row bound are not explored",
+    "key columns of different type on the two sides: equal instants held in different datetime64 units are not explored (NumPy 2.0 hashes datetime64 scalars per unit)",
     "key columns have the same kind on both sides",
     "which matched pair full_join forms beyond 'every left and right row at least once, never unequal keys' is not pinned (DESIGN 3.1)",
 ]
@@ -29,7 +30,7 @@ BOUND = {
     "quick": "one key: rows 0..3 a side over {NA,k1,k2} (40x40 pairs) for 12 key kinds x {same-name, renamed} x 5 joins; two keys: rows 0..2 a side over {NA,lo,hi}^2 (91x91 pairs) for 4 kind pairs x 5 joins",
     "thorough": "one key: rows 0..3 a side over {NA,k1,k2,k3} (85x85 pairs) and rows 0..4 over {NA,k1,k2} (121x121) for 12 key kinds x {same-name, renamed} x 5 joins; two keys: rows 0..2 a side for 8 kind pairs",
 }
-TIME_CAP = {"quick": 300, "thorough": 3000}
+TIME_CAP = {"quick": 480, "thorough": 3000}
 
 JOINS = ["left_join", "inner_join", "semi_join", "anti_join", "full_join"]
 KEY_ALPHA = {
@@ -45,15 +46,28 @@ KEY_ALPHA = {
     "us": [None, "1970-01-01T00:00:00", "2020-02-29T23:59:59.999999", "1969-12-31T23:59:59"],
     "obj": [None, 1, 2, 3],
     "td": [None, "1", "3", "-2"],
+    "strm": [None, "nan", "None", " a"],   # text that looks like a missing marker; a leading blank
+    "Dx": [None, "0001-01-01", "9999-12-31", "1677-09-21"],   # dates outside the range of nanosecond datetimes
+    "i8x": [0, -9223372036854775808, 9223372036854775807, -1],   # the ends of the int64 range
 }
-KINDS_Q = ["f8", "f8z", "f8c", "i8", "b1", "str", "U", "D", "us", "ns", "td", "obj"]
-KINDS_T = ["f8", "f8z", "f8c", "i8", "b1", "str", "U", "D", "us", "ns", "td", "obj"]
+KINDS_Q = ["f8", "f8z", "f8c", "i8", "b1", "str", "U", "D", "us", "ns", "td", "obj", "strm", "Dx", "i8x"]
+KINDS_T = ["f8", "f8z", "f8c", "i8", "b1", "str", "U", "D", "us", "ns", "td", "obj", "strm", "Dx", "i8x"]
 PAIRS_Q = [("f8", "str"), ("str", "D"), ("i8", "f8"), ("D", "obj")]
 PAIRS_T = PAIRS_Q + [("U", "us"), ("b1", "str"), ("f8", "f8"), ("str", "str")]
 
 
+CROSS = [
+    ("i8", "f8", [0, 1, 9007199254740993], [None, "1.0", "9007199254740992.0"], False),
+    ("f8", "i8", [None, "1.0", "9007199254740992.0"], [0, 1, 9007199254740993], False),
+    ("D", "us", [None, "2020-02-29", "2020-03-01"], [None, "2020-02-29T12:30:00", "2020-03-01T00:00:01"], True),
+    ("us", "D", [None, "2020-02-29T12:30:00", "2020-03-01T00:00:01"], [None, "2020-02-29", "2020-03-01"], True),
+    ("b1", "i8", [False, True], [0, 1, 2], True),
+    ("i8", "u1", [0, 5, -1], [0, 5, 200], True),
+]
+
+
 def real_kind(k):
-    return "f8" if k in ("f8z", "f8c") else k
+    return "f8" if k in ("f8z", "f8c") else {"strm": "str", "Dx": "D", "i8x": "i8"}.get(k, k)
 
 
 def shards(tier):
@@ -79,6 +93,12 @@ def shards(tier):
             for lf in range(len(V.alphabet(k1, "key"))):
                 out.append({"part": "two", "kinds": [k1, k2], "mode": mode, "n": 2, "lfirst": lf})
             out.append({"part": "two", "kinds": [k1, k2], "mode": mode, "n": 1, "lfirst": None})
+    # key columns of DIFFERENT type on the two sides: rows match where the values are equal (1 == 1.0; 2**53 + 1 is not
+    # 2**53; a day is not an instant later on that day). Equal instants held in different datetime units are left out:
+    # NumPy 2.0 hashes datetime64 per unit, so whether they meet in a lookup is NumPy's decision (ASSUMPTIONS).
+    for lk, rk, la, ra, full in CROSS:
+        for renamed in (False, True):
+            out.append({"part": "cross", "lk": lk, "rk": rk, "la": la, "ra": ra, "full": full, "renamed": renamed, "n": 3})
     from mc import harness
     return harness.with_array_forms(out, tier, lambda sh: sh["part"] == "one" and sh["kind"] in ("f8", "str", "D") and not sh["renamed"]
                                     and sh.get("lfirst") in (None, 0) and sh["n"] <= 3 and sh.get("asize", 3) == (3 if tier == "quick" else 4))
@@ -333,6 +353,16 @@ def run_shard(shard, rec):
                             own = [["k", rkind, [alpha[-1 - (i % 2)] for i in range(len(rt))]]]
                             check_case(dict(case, R=case["R"] + own, poke=False), rec)
                             check_case(dict(case, R=own + case["R"], poke=False, rkey_at=1), rec)
+    elif shard["part"] == "cross":
+        n = shard["n"]
+        rname = "rk" if shard["renamed"] else "k"
+        by = [["k", "rk"]] if shard["renamed"] else ["k"]
+        joins = JOINS if shard["full"] else JOINS[:-1]
+        rseqs = [list(t) for t in V.seqs(shard["ra"], 0, n)]
+        for lt in V.seqs(shard["la"], 0, n):
+            for rt in rseqs:
+                check_case({"L": left_cols([["k", shard["lk"], list(lt)]], len(lt)),
+                            "R": right_cols([[rname, shard["rk"], rt]], len(rt)), "by": by, "joins": joins}, rec)
     else:
         k1, k2 = shard["kinds"]
         a1, a2 = V.alphabet(k1, "key"), V.alphabet(k2, "key")
